@@ -181,6 +181,26 @@ def main():
                 V.violation(f'kernel:{key} feature=a AND b', f'rows grouped as {canon(ob_["values"]["a AND b"])} by the interaction feature, joint values group them as {canon(tup)}', it_)
         V.count(evaluations=len(bj_items), nontrivial=len(bj_items), traces=len(bj_items))
 
+    # ---- frames whose row index is not 0..n-1 (shuffled / filtered / sorted rows): the interaction is a function of the ROW
+    ij = [{'op': 'combined_indexed', 'columns': ['a', 'label', 'b', 'c'], 'rows': 40, 'seed': seed * 13 + k_, 'values': ['', '1', '11', 'a', '1a', 'é'],
+           'args': {'interaction_order': o_, 'label_column': 'label', 'combination_number_upper_bound': 10 ** 6}} for k_, o_ in enumerate((2, 3))]
+    for job, r in zip(ij, PC.pipe_eval(ij)):
+        if r is None or 'ok' not in r:
+            V.violation(f'raises:row-index order={job["args"]["interaction_order"]}', f'compute_combined_features failed on a frame with a non-default index: {PC.failure_text(r)}', job)
+            continue
+        for shape, rec in r['ok'].items():
+            key = f'row-index={shape} order={job["args"]["interaction_order"]} seed={job["seed"]}'
+            if rec['nrows_out'] != rec['nrows_in'] or not rec['untouched']:
+                V.violation('originals:' + key, f'{rec["nrows_in"]} rows in, {rec["nrows_out"]} rows out; original columns unchanged: {rec["untouched"]}', job)
+                continue
+            if not rec['new']:
+                raise E.MachineryError('no interaction column built for ' + key)
+            for cn, (pa, pt) in rec['parts'].items():
+                if pa != pt:
+                    V.violation(f'kernel:{key} feature={cn}', f'rows grouped as {pa[:12]}.. by the interaction feature, joint values group them as {pt[:12]}..', job)
+                    break
+        V.count(evaluations=4, nontrivial=3, traces=4)
+
     # ---- many distinct joint values: the feature must separate all of them (only 64-bit hash collisions are allowed;
     # at 3*10^5 tuples a 64-bit collision has probability ~2.5e-9, a 32-bit digest collides ~10 times)
     rows_l = 300000 if tier == 'quick' else 700000
